@@ -62,6 +62,14 @@ Costs gen_costs(Tape& t, double tscale) {
   return c;
 }
 
+// all cost terms are linear in their weights: scale the whole cost (and with it every gradient) by f
+void scale_costs(Costs& c, double f) {
+  c.tc.a0 *= f; c.tc.a1 *= f; c.tc.b *= f; c.tc.c *= f; c.tc.d *= f;
+  c.wc.w0 *= f; c.wc.w1 *= f; c.wc.kappa *= f; c.wc.mu *= f; c.wc.lin *= f;
+  c.rc.wp *= f; c.rc.wv *= f; c.rc.wa *= f; c.rc.wj *= f; c.rc.ws *= f; c.rc.xpa *= f; c.rc.xvj *= f;
+  c.rc.obs *= f; c.rc.sn *= f; c.rc.lg *= f; c.rc.lin_t *= f; c.rc.cst *= f;
+}
+
 template <class Opt>
 void configure(Opt& opt, const Problem& p, unsigned flagbits, double rho, int K) {
   opt.setOptimizationFlags(flags_from_bits(flagbits));
@@ -545,6 +553,8 @@ void c19_run(Tape& t, Ctx& ctx, Opt& opt, const TM& tm, const Problem& p, const 
   Costs costs = gen_costs(t, sig);
   costs.wc.ref = p.P.template cast<double>();   // reference waypoints of the linear-deviation term
   double rho_eff = rho * std::pow(sig, 2 * S - 1) / 64.0;
+  // a sixth of the cases scale the whole cost down so that the gradient norm lies around the helper's thresholds (1e-9, tol)
+  if (t.chance(1, 6)) { double f = std::pow(10.0, -t.range(4, 10)); scale_costs(costs, f); rho_eff *= f; ctx.label("cost-scale:tiny"); }
   configure(opt, p, flagbits, rho_eff, K);
   Eigen::VectorXd x = gen_x(t, opt, tm, N);
   const int n = (int)x.size();
@@ -621,6 +631,40 @@ void c19_run(Tape& t, Ctx& ctx, Opt& opt, const TM& tm, const Problem& p, const 
     VCHECK(ctx, mat_same_bits(after.getTrajectory().getCoefficients(), wfresh.spline.getTrajectory().getCoefficients()) && after.getTimeSegments() == wfresh.spline.getTimeSegments() &&
                     mat_same_bits(after.getSpacePoints(), wfresh.spline.getSpacePoints()),
            "state-not-restored", who << ": after the self-check the workspace's spline is not the one defined by the checked decision vector: " << first_diff(after.getTrajectory().getCoefficients(), wfresh.spline.getTrajectory().getCoefficients()));
+  }
+  {
+    double gn = res.analytical.norm();
+    ctx.label(gn > 1e-4 ? "gradient-norm>1e-4" : (gn > 1e-9 ? "gradient-norm in (1e-9,1e-4]" : "gradient-norm<=1e-9"));
+  }
+  // ---- a second self-check on the same optimizer and workspace at ANOTHER vector of the same size: nothing of the first call may survive
+  if (t.chance(1, 3)) {
+    Eigen::VectorXd x2 = gen_x(t, opt, tm, N);
+    Eigen::VectorXd g2, d2;
+    typename Opt::Workspace wm2;
+    double c2 = eval(costs, x2, g2, &wm2);
+    double cmax2 = std::fabs(c2);
+    Eigen::VectorXd num2(n);
+    for (int i = 0; i < n; ++i) {
+      Eigen::VectorXd y = x2;
+      y(i) = x2(i) + eps; double cp = eval(costs, y, d2, &wm2);
+      y(i) = x2(i) - eps; double cm = eval(costs, y, d2, &wm2);
+      num2(i) = (cp - cm) / (2 * eps);
+      cmax2 = std::max(cmax2, std::max(std::fabs(cp), std::fabs(cm)));
+    }
+    auto res2 = two_cost ? opt.checkGradients(x2, costs.tc, costs.rc, wp, eps, tol) : opt.checkGradients(x2, costs.tc, costs.wc, costs.rc, wp, eps, tol);
+    VCHECK(ctx, res2.analytical.size() == n && vec_same_bits(res2.analytical, g2), "analytical-not-gradient", who << ": second self-check on the same object: the 'analytical' vector is not the gradient at the second vector");
+    for (int i = 0; i < n; ++i) {
+      double allow = 1e-9 * std::fabs(num2(i)) + 64 * DBL_EPSILON * cmax2 / eps + 1e-280;
+      VCHECK(ctx, std::fabs(res2.numerical(i) - num2(i)) <= allow, "numerical-not-central-difference",
+             who << ": second self-check on the same object (another vector of the same size): numerical[" << i << "] = " << g17(res2.numerical(i)) << " but the central difference at that vector is " << g17(num2(i)));
+    }
+    typename Opt::Workspace wf2; Eigen::VectorXd gf2;
+    eval(costs, x2, gf2, &wf2);
+    const Spline& after2 = own_ws ? wown.spline : *opt.getOptimalSpline();
+    VCHECK(ctx, mat_same_bits(after2.getTrajectory().getCoefficients(), wf2.spline.getTrajectory().getCoefficients()), "state-not-restored", who << ": after a second self-check the workspace's spline is not the one of the second vector");
+    // leave the object as the remaining checks expect it: re-run at the first vector
+    (void)run_helper(costs, tol, wp);
+    ctx.label("second-self-check-same-object");
   }
   // part 2: verdict for correct functors
   VCHECK(ctx, res.valid, "correct-functors-rejected", who << ": correct cost functors are reported FAILED (error_norm " << g17(res.error_norm) << ", tolerance " << g17(tol) << ", measured resolution of the differences " << g17(nu) << ")");
